@@ -396,9 +396,11 @@ def enc_res(r, py):
     return None
 
 def wf_for_ts_model(c):
-    """the TypeScript model is exact on everything the Python differ produces; cases where the TS side threw are compared
-    by error class"""
-    return c.get('ts') is not None and c['ts'].get('err') != 'HarnessCrash'
+    """the TypeScript model is compared on everything the Python differ produces (a throw is compared by error class),
+    except text with astral code points: the model reads strings as code-unit lists and the theorem is about BMP text;
+    astral text is covered by the differential run and by the ts_patch_astral_refuted witness"""
+    if c.get('ts') is None or c['ts'].get('err') == 'HarnessCrash': return False
+    return not has_astral([c['base'], c['diff']])
 
 def select_t1(pcases, tier):
     """all small cases, a bounded number of notebook-sized ones (the coqc route parses every case as a term)"""
@@ -442,9 +444,10 @@ def report_patch_failures(chk, pcases, failing, env):
         det['cases_with_this_signature'] = counts.get(sig, 1)
         for _ in range(counts.get(sig, 1)):
             if chk.violation(sig, case, det): break
-    for i, sig, det in failing:
-        if i in explained: continue
+    rest = [(len(canon([pcases[i]['base'], pcases[i]['diff']])), i, sig, det) for i, sig, det in failing if i not in explained]
+    for _, i, sig, det in sorted(rest, key=lambda x: x[:2]):      # smallest first: that is the one written to the replay
         c = pcases[i]
+        det = dict(det, found_in=c['src'], other_cases_at_container_level=len(rest) - 1)
         chk.violation(sig + ':container-level', {'kind': 'patch', 'base': c['base'], 'diff': c['diff']}, det)
 
 def decision_signature(base, d, py, ts):
@@ -520,6 +523,7 @@ def report_merge_failures(chk, mcases, mfail, env):
         chk.violation('ts-apply-differs:only-in-combination', {'kind': 'apply', 'base': c['base'], 'decisions': c['decisions']},
                       {'python': c['py'].get('err', '<merged notebook>'), 'ts': c['ts'].get('err', '<different document>'), 'ts_msg': c['ts'].get('msg')})
 
+WITNESS_ASTRAL = {'base': chr(0x1f600) + 'ab\n', 'diff': [{'op': 'patch', 'key': 0, 'diff': [{'op': 'addrange', 'key': 2, 'valuelist': 'X'}]}]}
 WITNESS_PATCH = {'base': 'a\x0cb\nc\n', 'diff': [{'op': 'patch', 'key': 1, 'diff': [{'op': 'addrange', 'key': 1, 'valuelist': 'X'}]}]}
 
 def stale_witnesses(chk, env):
@@ -529,6 +533,11 @@ def stale_witnesses(chk, env):
     t = [{'op': 'patch', 'base': WITNESS_PATCH['base'], 'diff': WITNESS_PATCH['diff']}]
     py = core.run_impl(t, script='c15_pyrun.py', env_extra=env)[0]
     ts = c15_node.run_node(t + [{'op': 'split', 's': 'a' + c + 'b'} for c in EXOTIC] + [{'op': 'action', 'action': 'take_max'}])
+    ta = [{'op': 'patch', 'base': WITNESS_ASTRAL['base'], 'diff': WITNESS_ASTRAL['diff']}]
+    pya = core.run_impl(ta, script='c15_pyrun.py', env_extra=env)[0]; tsa = c15_node.run_node(ta)[0]
+    if 'ts_patch_astral_refuted' in props and same(pya, tsa):
+        chk.broken_obligation('stale-refutation:ts_patch_astral_refuted', {'witness': WITNESS_ASTRAL, 'both_sides_now_give': pya.get('ok'),
+                              'note': 'character-level keys are now converted: drop BLOCK UTF-16 of Props/C15.v and the known finding'})
     if 'ts_patch_refuted' in props and same(py, ts[0]):
         chk.broken_obligation('stale-refutation:ts_patch_refuted', {'witness': WITNESS_PATCH, 'both_sides_now_give': py.get('ok')})
     if 'splitlines_ts_refuted' in props:
